@@ -52,13 +52,62 @@ var hostileArgs = []string{"-1", "0", "1", "2", "256", "9223372036854775807", "9
 
 var stormBuiltins = []string{"shift", "getopts", "break", "continue", "return", "exit", "read", "mapfile", "readarray", "wait", "unset", "set", "shopt", "trap", "cd", "pushd", "popd", "dirs", "printf", "test", "[", "type", "command", "builtin", "eval", "alias", "unalias", "declare", "local", "typeset", "let", "export", "readonly", "echo", "source", ".", "exec", "pwd", "true", "false", "umask", "fg", "bg", "jobs", "times", "hash", "help", "caller", "compgen", "complete", "enable", "ulimit", "kill", "disown", "suspend", "logout", "history", "fc", "bind", "printf -v", "read -a", "read -r", "read -n", "read -d", "declare -A", "declare -a", "declare -n", "declare -i", "local -a", "unset -f", "unset -v", "set --", "set -o", "set +o", "shopt -s", "shopt -u", "trap --", "getopts abc", "getopts :a:b", "getopts a: x", "test -v", "[ -z", "mapfile -t", "mapfile -n", "wait -n", "cd -", "pushd +1", "popd -0", "export -n", "readonly -a", "alias -p", "type -a", "command -v"}
 
+// stormFamilies keep a storm on one theme, so that the builtins of a case work
+// on the same names, options and operands and can interact.
+var stormFamilies = []struct{ builtins, args []string }{
+	{[]string{"shopt -s expand_aliases;", "alias", "alias", "unalias", "type", "type", "command -v", "shopt -u expand_aliases;", "alias -p", "type -t", "type -a", "a;", "b;", "eval a;", "command -V"}, []string{"a", "b", "a", "b", "a=", "a=b", "a= ", "b=a ", "a='b '", "b=", "-a", "-p", "a=a", "b='echo x'", "nosuch"}},
+	{[]string{"getopts", "getopts ab: o", "getopts :a:b o", "getopts a o", "shift", "OPTIND=1;", "OPTIND=3;", "OPTIND=0;", "set --", "echo $OPTIND $OPTARG $o", "unset OPTIND;", "getopts '' o", "getopts ab"}, []string{"-a", "-ab", "-abc", "-b", "val", "-", "--", "-a -b", "x", "-ba", "", "-:", "o", "1", "2", "-1", "99"}},
+	{[]string{"declare -a", "declare -A", "unset", "read -a", "mapfile -t", "mapfile", "declare -p", "local", "export", "readonly", "declare -n", "declare", "echo ${arr[@]} ${#arr[@]} ${!arr[@]};", "arr+=(1 2);", "arr[1]=x;", "unset 'arr[1]';", "arr=();", "declare -A arr;", "arr[k]=v;", "echo ${arr[-1]} ${arr[k]} ${arr[1+1]};"}, []string{"arr", "arr[1]", "arr[-1]", "arr[@]", "arr[k]", "arr=(a b)", "arr=([k]=v)", "arr[", "arr[]", "arr[1]=", "-n", "-t", "-u", "3", "x", "arr=", "ref", "ref=arr", "ref=ref"}},
+	{[]string{"cd", "pushd", "popd", "dirs", "pwd", "mkdir -p d1/d2;", "cd d1;", "pushd d1 >/dev/null;", "popd >/dev/null;", "dirs -c;", "OLDPWD=;", "unset OLDPWD;", "unset PWD;", "cd -", "CDPATH=.;"}, []string{"+0", "-0", "+1", "-1", "+9", "-9", "+", "-", "..", ".", "/", "d1", "d1/d2", "nosuch", "", "-L", "-P", "-n", "~", "+x", "--", "d1 d2"}},
+	{[]string{"trap", "trap --", "trap -", "trap -p", "trap -l", "exit", "return", "false", "kill", "wait", "wait -n", "( exit 3 );", "true &", "jobs", "fg", "bg", "disown"}, []string{"EXIT", "ERR", "INT", "DEBUG", "0", "1", "2", "-1", "256", "HUP", "'echo t'", "''", "-", "BOGUS", "SIGINT", "%1", "%%", "$!", "99999", "x"}},
+	{[]string{"test", "[", "[[", "test !", "[ !", "test -v", "test -n", "test -z", "[ -e", "test -f", "test (", "! test"}, []string{"a", "=", "==", "!=", "-eq", "-lt", "-a", "-o", "!", "(", ")", "]", "]]", "", "1", "x", "-n", "-z", "-v", "-e", "<", ">", "=~", "-nt", "-ef", "a b", "-t", "&&", "||"}},
+	{[]string{"printf", "printf -v v", "echo", "echo -e", "echo -n", "echo -en", "printf --", "printf %s", "printf '%d\\n'", "printf %b", "printf %c", "printf %x", "printf '%5s'", "printf '%-5d'", "printf %q"}, []string{"%", "%%", "%s", "%d", "%5", "%-", "%*d", "%.3s", "%z", "\\", "\\x", "\\xZ", "\\u12", "\\U0010FFFF", "\\c", "\\0777", "\\1", "-1", "9223372036854775808", "0x", "08", "'a", "\"a", "", "abc", "1e3", "-n", "--"}},
+	{[]string{"set", "set -o", "set +o", "shopt", "shopt -s", "shopt -u", "shopt -p", "shopt -q", "set -e;", "set -u;", "set -x;", "set +x;", "set --", "set -", "echo $-;", "set -o |"}, []string{"errexit", "nounset", "pipefail", "noglob", "allexport", "noexec", "xtrace", "posix", "bogus", "globstar", "extglob", "nullglob", "dotglob", "nocaseglob", "expand_aliases", "inherit_errexit", "lastpipe", "-e", "+e", "-o", "+o", "-euo", "pipefail -x", "--", "-", "a b"}},
+	{[]string{"read", "read -r", "read -a arr", "read -n", "read -d", "read -p", "read -s", "read -t", "read -u", "read -N", "mapfile", "readarray -t", "IFS=: read", "IFS= read", "read x y z", "read -rn1", "REPLY=;"}, []string{"x", "x y", "-1", "0", "1", "3", "999999999", "''", "a", "-", "x[1]", "x[", "1x", "", "-r", "-e", "-i", "txt", "$'\\n'", "0.1", "9", "-t0"}},
+}
+
 func (p *c28) Gen(i int, r *rand.Rand) any {
+	args, blts := hostileArgs, stormBuiltins
+	if fam := r.IntN(2 * len(stormFamilies)); fam < len(stormFamilies) {
+		args, blts = stormFamilies[fam].args, stormFamilies[fam].builtins
+	}
 	pickArgs := func(lo, hi int) []string {
 		var a []string
 		for n := lo + r.IntN(hi-lo+1); n > 0; n-- {
-			a = append(a, hostileArgs[r.IntN(len(hostileArgs))])
+			a = append(a, args[r.IntN(len(args))])
 		}
 		return a
+	}
+	if r.IntN(25) == 0 {
+		// a getopts session: the same option string parsed over changing argument
+		// lists, with OPTIND resets, shifts and new positional parameters in between
+		optstr := []string{"ab", "abc", "a:b", ":a:b:", "ab:", "a", ":", "", "a:", "abc:d"}[r.IntN(10)]
+		clusters := []string{"-a", "-b", "-ab", "-abc", "-ba", "-c", "-", "--", "x", "-a x", "-bval", "-b val", "-abx", "-d", "-:", "", "-cab"}
+		argv := func() string {
+			var a []string
+			for n := r.IntN(4); n > 0; n-- {
+				a = append(a, clusters[r.IntN(len(clusters))])
+			}
+			return strings.Join(a, " ")
+		}
+		var sb strings.Builder
+		for n := 2 + r.IntN(6); n > 0; n-- {
+			switch r.IntN(9) {
+			case 0:
+				sb.WriteString("OPTIND=" + []string{"1", "2", "3", "0", "-1", "9", "x", ""}[r.IntN(8)] + "\n")
+			case 1:
+				sb.WriteString("set -- " + argv() + "\n")
+			case 2:
+				sb.WriteString("shift " + []string{"", "1", "2", "$((OPTIND-1))"}[r.IntN(4)] + "\n")
+			case 3:
+				sb.WriteString("getopts '" + optstr + "' o\n") // uses the positional parameters
+			case 4:
+				sb.WriteString("while getopts '" + optstr + "' o " + argv() + "; do echo \"$o $OPTARG $OPTIND\"; done\n")
+			default:
+				sb.WriteString("getopts '" + optstr + "' o " + argv() + "; echo \"$? $o $OPTARG $OPTIND\"\n")
+			}
+		}
+		return &PanicCase{Kind: "builtins", Src: sb.String(), Lang: "bash", Params: strings.Fields(argv()), Source: "getopts-session"}
 	}
 	switch k := r.IntN(20); {
 	case k == 0:
@@ -83,9 +132,18 @@ func (p *c28) Gen(i int, r *rand.Rand) any {
 			sb.WriteString("for i in 1 2; do\n")
 		}
 		for n := 2 + r.IntN(8); n > 0; n-- {
-			b := stormBuiltins[r.IntN(len(stormBuiltins))]
+			b := blts[r.IntN(len(blts))]
 			line := b + " " + shellJoin(pickArgs(0, 4))
-			switch r.IntN(8) {
+			if strings.HasSuffix(b, ";") {
+				line = b // a fixed statement of the family
+			} else if r.IntN(3) == 0 {
+				line = b + " " + strings.Join(pickArgs(0, 3), " ") // unquoted arguments: the family's words are shell syntax
+			}
+			deco := r.IntN(8)
+			if strings.HasSuffix(b, ";") {
+				deco = 7
+			}
+			switch deco {
 			case 0:
 				line += " <<< " + shellJoin(pickArgs(1, 1))
 			case 1:
@@ -93,7 +151,7 @@ func (p *c28) Gen(i int, r *rand.Rand) any {
 			case 2:
 				line = "IFS=" + shellJoin(pickArgs(1, 1)) + " " + line
 			case 3:
-				line += " | " + stormBuiltins[r.IntN(len(stormBuiltins))] + " " + shellJoin(pickArgs(0, 2))
+				line += " | " + strings.TrimSuffix(blts[r.IntN(len(blts))], ";") + " " + shellJoin(pickArgs(0, 2))
 			case 4:
 				line = "( " + line + " )"
 			}
